@@ -19,8 +19,31 @@ func codecPesView(h pes.PESHeader, in, orig []byte) Val {
 	if !bytes.Equal(in, orig) {
 		unchanged = 1
 	}
-	return VL(VU(uint64(h.PacketStartCodePrefix())), VU(uint64(h.StreamId())), VBool(h.DataAligned()),
+	scalars := func() [7]uint64 {
+		b := func(x bool) uint64 {
+			if x {
+				return 1
+			}
+			return 0
+		}
+		return [7]uint64{uint64(h.PacketStartCodePrefix()), uint64(h.StreamId()), b(h.DataAligned()), b(h.HasPTS()), h.PTS(), b(h.HasDTS()), h.DTS()}
+	}
+	r := VL(VU(uint64(h.PacketStartCodePrefix())), VU(uint64(h.StreamId())), VBool(h.DataAligned()),
 		VBool(h.HasPTS()), VU(h.PTS()), VBool(h.HasDTS()), VU(h.DTS()), VB(data), VI(unchanged), VI(printed))
+	// a caller that reuses its buffer for the next packet: the header's decoded values (not Data(), which is documented
+	// to be a view of the input) must not follow the buffer (seeded C04-v2 / C11-v2: time stamps decoded lazily from
+	// slices of the input).  The buffer is restored afterwards.
+	s1 := scalars()
+	saved := append([]byte{}, in...)
+	for i := range in {
+		in[i] ^= 0x5A
+	}
+	s2 := scalars()
+	copy(in, saved)
+	if s1 != s2 {
+		noteUnstable("the values of a decoded PES header (start code, stream id, flags, PTS, DTS) changed when the caller overwrote the buffer the header had been decoded from: %v then %v", s1, s2)
+	}
+	return r
 }
 
 func codecNewPes(in []byte) Val {
